@@ -74,6 +74,44 @@ fn list_case<E: Elem, F: FnOnce() -> (usize, Vec<u64>)>(st: &mut Stats, form: &'
     });
 }
 
+thread_local! {
+    static LEASES_OUT: std::cell::Cell<u32> = const { std::cell::Cell::new(0) };
+}
+/// a temporary with an observable lifetime: `lease(i).read()` yields 100*i + (leases alive now)
+struct Lease(u32);
+fn lease(i: u32) -> Lease {
+    LEASES_OUT.with(|c| c.set(c.get() + 1));
+    Lease(i)
+}
+impl Lease {
+    fn read(&self) -> u32 {
+        self.0 * 100 + LEASES_OUT.with(|c| c.get())
+    }
+}
+impl Drop for Lease {
+    fn drop(&mut self) {
+        LEASES_OUT.with(|c| c.set(c.get() - 1));
+    }
+}
+
+fn temps_case(st: &mut Stats, k: usize, native: impl FnOnce() -> Vec<u32>, arr: impl FnOnce() -> Vec<u32>, boxed: impl FnOnce() -> Vec<u32>) {
+    st.check_case("C20", "temporaries", "u32", || format!("C20 temporaries count={k}"), true, || {
+        let n = native();
+        let a = arr();
+        let b = boxed();
+        if a != n {
+            return Err(format!("Contents: arr! gives {a:?}, the native literal {n:?} (temporaries of element expressions observed by later elements)"));
+        }
+        if b != n {
+            return Err(format!("Contents: box_arr! gives {b:?}, arr!/the native literal give {n:?} for the same arguments"));
+        }
+        if LEASES_OUT.with(|c| c.get()) != 0 {
+            return Err("HarnessBug: leases outstanding".into());
+        }
+        Ok(())
+    });
+}
+
 fn repeat_case(st: &mut Stats, form: &'static str, n: usize, build: impl FnOnce() -> (usize, Vec<u32>)) {
     st.check_case("C20", form, "u32", || format!("C20 {form} u32 N={n}"), n > 0, || {
         reset();
@@ -134,6 +172,7 @@ fn main() {
         all_lists_tok(&mut st, args.maxn);
         all_lists_u32(&mut st, args.maxn);
         all_lists_ztok(&mut st, args.maxn);
+        all_temps(&mut st);
     }
     if args.part_on("repeats") {
         all_repeats(&mut st, args.maxn);
